@@ -79,10 +79,15 @@ def _gear6(draw, which='both'):
 
 
 @st.composite
-def _transmission(draw, info, tkinds, allow):
-  """returns (trn dict, xml attrs). trn['kind'] in joint/jointinparent/tendon/site/refsite/slidercrank/body."""
+def _transmission(draw, info, tkinds, allow, rot3d=False):
+  """returns (trn dict, xml attrs). trn['kind'] in joint/jointinparent/tendon/site/refsite/slidercrank/body.
+  rot3d: restrict to the purely rotational 3D transmissions (ball joint, site+refsite with rotational gear)."""
   joints = info['joints']
   sites = info['sites']
+  if rot3d:
+    joints = [j for j in joints if j[1] == 'ball']
+    allow = [k for k in allow if k in ('joint', 'jointinparent', 'refsite')]
+    info = dict(info, tendons=[])
   kinds = []
   if joints:
     kinds += ['joint', 'joint', 'jointinparent']
@@ -135,7 +140,7 @@ def _transmission(draw, info, tkinds, allow):
     r = draw(st.sampled_from([x for x in sites if x != s]))
     a['site'] = s
     a['refsite'] = r
-    which = draw(st.sampled_from(['lin', 'lin', 'rot', 'rot', 'both']))
+    which = 'rot' if rot3d else draw(st.sampled_from(['lin', 'lin', 'rot', 'rot', 'both']))
     gear = draw(_gear6(which))
     a['gear'] = fmt(gear)
     trn.update(site=s, refsite=r, which=which)
@@ -199,7 +204,11 @@ def _actuator(draw, k, info, tkinds, family, only=None):
   elif kind == 'dcmotor':
     tr = draw(_transmission(info, tkinds, ['joint', 'tendon']))
   else:
-    tr = draw(_transmission(info, tkinds, allow_all))
+    tr = None
+    if kind in ('position', 'intvelocity', 'pid') and draw(st.booleans()):
+      tr = draw(_transmission(info, tkinds, allow_all, rot3d=True))     # circle semantics of servo setpoints
+    if tr is None:
+      tr = draw(_transmission(info, tkinds, allow_all))
   if tr is None:
     return None
   trn, ta = tr
@@ -378,9 +387,13 @@ def _actuator(draw, k, info, tkinds, family, only=None):
     K = draw(num(0.05, 1, 2))
     attrs['resistance'] = fmt(R)
     attrs['motorconst'] = fmt([K, K])
-    if draw(st.integers(0, 2)) == 0:
+    stateful = draw(st.integers(0, 2)) == 0
+    if stateful:
       attrs['inductance'] = fmt([0, draw(num(0.001, 0.05, 3))])
-    spec.update(dyn='dcmotor', gain='dcmotor', bias='dcmotor', oracle='invariants', R=R, K=K)
+    # stateless voltage-commanded motor: torque = K/R (V - K*velocity) (XMLreference dcmotor/controller sentence);
+    # with electrical dynamics (armature-current state) only the invariants are checked
+    spec.update(dyn='dcmotor', gain='dcmotor', bias='dcmotor',
+                oracle='invariants' if stateful else 'force', R=R, K=K)
   spec['tag'] = tag
   spec['nctrl'] = nctrl
   # ---- limits
@@ -484,21 +497,26 @@ def act_models(draw, family='tree', max_bodies=4, max_act=5):
       xml = xml.replace('<joint name="%s"' % jn, '<joint%s name="%s"' % (extra, jn))
       jfrc[jn] = dict(range=list(r), limited=(mode != 'false') and jt in ('hinge', 'slide'), jtype=jt, mode=mode)
   gravcomp = {}
-  if draw(st.integers(0, 2)) == 0:
+  if draw(st.booleans()):
     for bn in info['bodies']:
-      if draw(st.booleans()):
+      if draw(st.integers(0, 2)):
         gc = draw(num(0.1, 1.5, 1))
         xml = xml.replace('<body name="%s"' % bn, '<body gravcomp="%s" name="%s"' % (fmt(gc), bn))
         gravcomp[bn] = gc
     for jn, jt, bn in info['joints']:
-      if draw(st.booleans()):
+      if draw(st.integers(0, 2)):
         xml = xml.replace('<joint name="%s"' % jn, '<joint actuatorgravcomp="true" name="%s"' % jn)
         gravcomp['@' + jn] = True
+        if jn not in jfrc and jt in ('hinge', 'slide') and draw(st.booleans()):
+          r = draw(_range(0.05, 3))
+          xml = xml.replace('<joint actuatorgravcomp="true" name="%s"' % jn,
+                            '<joint actuatorgravcomp="true" actuatorfrcrange="%s" name="%s"' % (fmt(list(r)), jn))
+          jfrc[jn] = dict(range=list(r), limited=True, jtype=jt, mode='auto')
   tfrc = {}
   for tn in info['tendons']:
     if draw(st.integers(0, 1)) == 0:
       r = draw(_range(0.05, 5))
-      mode = draw(st.sampled_from(['auto', 'auto', 'true', 'true', 'false']))
+      mode = draw(st.sampled_from(['auto', 'true', 'true', 'true', 'false']))
       extra = ' actuatorfrcrange="%s"' % fmt(list(r))
       if mode != 'auto':
         extra += ' actuatorfrclimited="%s"' % mode
